@@ -62,6 +62,8 @@ structure EJ (s : EnumSt) (next : Int) (sgn : Bool) (vs : List Int) : Prop where
   minat : s.min = 0 ∨ -(s.min : Int) ∈ vs
   maxlt : s.max < 2 ^ 64
   minle : s.min ≤ 2 ^ 63
+  /-- before the first enumerator is recorded (`enumconsts == NULL`) the loop is in its initial state -/
+  seen : s.seen = true ∨ (next = 0 ∧ sgn = true)
 
 theorem max_track {vs : List Int} {M M' : Nat} {v : Int} (hub : ∀ x ∈ vs, x ≤ (M : Int))
     (hat : M = 0 ∨ (M : Int) ∈ vs) (hM : (M' = M ∧ v ≤ M) ∨ ((M' : Int) = v ∧ (M : Int) ≤ v)) :
@@ -102,7 +104,8 @@ theorem record_ok {s : EnumSt} {next : Int} {sgn : Bool} {vs : List Int} (h : EJ
     (hr : Represents et v) (het : ValidTy et) (hsg : et.signed = false → v > 2 ^ 31 - 1)
     {s' : EnumSt} (h1 : s'.value = u64 (value + 1)) (h2 : s'.et = et)
     (h3 : s'.max = if !(et.signed && decide (value ≥ 9223372036854775808)) && decide (value > s.max) then value else s.max)
-    (h4 : s'.min = if (et.signed && decide (value ≥ 9223372036854775808)) && decide (sub64 0 value > s.min) then sub64 0 value else s.min) :
+    (h4 : s'.min = if (et.signed && decide (value ≥ 9223372036854775808)) && decide (sub64 0 value > s.min) then sub64 0 value else s.min)
+    (h5 : s'.seen = true) :
     EJ s' (v + 1) et.signed (vs ++ [v]) := by
   obtain ⟨b1, b2⟩ := lo_hi_bounds het
   have hmax := h.maxub; have hmaxat := h.maxat; have hminlb := h.minlb; have hminat := h.minat
@@ -137,16 +140,16 @@ theorem record_ok {s : EnumSt} {next : Int} {sgn : Bool} {vs : List Int} (h : EJ
   · have hsgn : 0 ≤ v := by omega
     obtain ⟨m1, m2⟩ := max_track (M' := s'.max) (v := v) hmax hmaxat (by omega)
     obtain ⟨n1, n2⟩ := min_track (m' := s'.min) (v := v) hminlb hminat (by omega)
-    exact ⟨hvalue, by rw [h2], h2 ▸ het, by rw [h2]; exact hrange, huns, m1, m2, n1, n2, by omega, by omega⟩
+    exact ⟨hvalue, by rw [h2], h2 ▸ het, by rw [h2]; exact hrange, huns, m1, m2, n1, n2, by omega, by omega, Or.inl h5⟩
   · obtain ⟨m1, m2⟩ := max_track (M' := s'.max) (v := v) hmax hmaxat (by omega)
     obtain ⟨n1, n2⟩ := min_track (m' := s'.min) (v := v) hminlb hminat (by omega)
-    exact ⟨hvalue, by rw [h2], h2 ▸ het, by rw [h2]; exact hrange, huns, m1, m2, n1, n2, by omega, by omega⟩
+    exact ⟨hvalue, by rw [h2], h2 ▸ het, by rw [h2]; exact hrange, huns, m1, m2, n1, n2, by omega, by omega, Or.inl h5⟩
 
 theorem record_ok' {s : EnumSt} {next : Int} {sgn : Bool} {vs : List Int} (h : EJ s next sgn vs)
     {value : Nat} {et : IntTy} {v : Int} (hv : v = val64 value et.signed) (hvl : value < 2 ^ 64)
     (hr : Represents et v) (het : ValidTy et) (hsg : et.signed = false → v > 2 ^ 31 - 1) :
     EJ (enumRecord s value et) (v + 1) et.signed (vs ++ [v]) :=
-  record_ok h hv hvl hr het hsg rfl rfl rfl rfl
+  record_ok h hv hvl hr het hsg rfl rfl rfl rfl rfl
 
 theorem find_inttypes (sg : Bool) (p : IntTy → Bool) (h8 : p ⟨8, sg⟩ = true) :
     ∃ t, (inttypes sg).find? p = some t ∧ ValidTy t ∧ t.signed = sg ∧ p t = true := by
@@ -208,11 +211,17 @@ theorem enumPick_nofix {s : EnumSt} {next : Int} {sgn : Bool} {vs : List Int} {i
         omega
   | implicit =>
     simp only [enumPick] at hs
-    by_cases c1 : ((s.value == 0 && !s.et.signed) || (s.value == 9223372036854775808 && s.et.signed)) = true
-    · simp [c1] at hs
-    simp only [c1, Bool.false_eq_true, ↓reduceIte] at hs
+    by_cases c0 : (s.seen && ((s.value == 0 && !s.et.signed) || (s.value == 9223372036854775808 && s.et.signed))) = true
+    · simp [c0] at hs
+    simp only [c0, Bool.false_eq_true, ↓reduceIte] at hs
     -- the value is `next`, in range for the signedness of `et`
     have hvl : s.value < 2 ^ 64 := by omega
+    -- the wrap-around test is false also on the first enumerator (`int`, value 0), where it is not evaluated
+    have c1 : ¬ ((s.value == 0 && !s.et.signed) || (s.value == 9223372036854775808 && s.et.signed)) = true := by
+      rcases h.seen with hsn | ⟨hn0, hs0⟩
+      · simpa [hsn] using c0
+      · have hv0 : s.value = 0 := by omega
+        simp [hv0, hsg, hs0]
     have hnext : next = val64 s.value s.et.signed ∧
         ¬ ((sgn && decide (next > 2 ^ 63 - 1) || !sgn && decide (next > 2 ^ 64 - 1)) = true) := by
       unfold val64
@@ -298,7 +307,7 @@ theorem enumLoop_nofix : ∀ (items : List EnumItem) (s : EnumSt) (next : Int) (
 
 theorem EJ_init : EJ {} 0 true [] :=
   ⟨by decide, rfl, by decide, by decide, fun h => by simp at h, by simp, Or.inl rfl, by simp, Or.inl rfl,
-    by decide, by decide⟩
+    by decide, by decide, Or.inr ⟨rfl, rfl⟩⟩
 
 theorem all_represents_iff {t : IntTy} (ht : ValidTy t) {vs : List Int} {M m : Nat}
     (h1 : ∀ v ∈ vs, v ≤ (M : Int)) (h2 : M = 0 ∨ (M : Int) ∈ vs)
@@ -421,14 +430,19 @@ theorem enumUnderlying_nofix {items : List EnumItem} {t : IntTy} (hw : ItemsWf i
 structure FJ (b : IntTy) (s : EnumSt) (next : Int) : Prop where
   value : (s.value : Int) = next % 2 ^ 64
   et : s.et = b
-  range : next = 0 ∨ (lo b + 1 ≤ next ∧ next ≤ hi b + 1)
+  /-- before the first enumerator is recorded (`enumconsts == NULL`) the counter is 0 -/
+  first : s.seen = false → next = 0
+  range : s.seen = true → lo b + 1 ≤ next ∧ next ≤ hi b + 1
+
+theorem FJ_init (b : IntTy) : FJ b { et := b } 0 :=
+  ⟨by simp, rfl, fun _ => rfl, fun hf => by simp at hf⟩
 
 theorem enumPick_fix {b : IntTy} {s : EnumSt} {next : Int} {it : EnumItem} {value : Nat} {et : IntTy}
     (hb : ValidTy b) (h : FJ b s next) (hw : ItemWf it) (hs : enumPick true s it = .ok (value, et)) :
     ∃ v : Int, et = b ∧ Represents b v ∧ (value : Int) = v % 2 ^ 64 ∧
       ∀ its, enumValuesFixed next (it :: its) = v :: enumValuesFixed (v + 1) its := by
   obtain ⟨b1, b2⟩ := lo_hi_bounds hb
-  have hval := h.value; have het := h.et; have hrange := h.range
+  have hval := h.value; have het := h.et
   cases it with
   | explicit u ty =>
     obtain ⟨hu, hty, hrep⟩ := hw
@@ -446,9 +460,9 @@ theorem enumPick_fix {b : IntTy} {s : EnumSt} {next : Int} {it : EnumItem} {valu
     · simp [hfit] at hs
   | implicit =>
     simp only [enumPick, het] at hs
-    by_cases c1 : ((s.value == 0 && !b.signed) || (s.value == 9223372036854775808 && b.signed)) = true
-    · simp [c1] at hs
-    simp only [c1, Bool.false_eq_true, ↓reduceIte] at hs
+    by_cases c0 : (s.seen && ((s.value == 0 && !b.signed) || (s.value == 9223372036854775808 && b.signed))) = true
+    · simp [c0] at hs
+    simp only [c0, Bool.false_eq_true, ↓reduceIte] at hs
     have hvl : s.value < 2 ^ 64 := by omega
     by_cases c2 : typehasint b s.value b.signed = true
     · simp only [c2, Bool.not_true, Bool.false_eq_true, ↓reduceIte, Except.ok.injEq, Prod.mk.injEq] at hs
@@ -456,18 +470,28 @@ theorem enumPick_fix {b : IntTy} {s : EnumSt} {next : Int} {it : EnumItem} {valu
       subst hs1; subst hs2
       have hr := (typehasint_iff hb hvl b.signed).1 c2
       have hn : val64 s.value b.signed = next := by
-        unfold val64
-        cases hsig : b.signed with
-        | true =>
-          obtain ⟨d1, d2, d3, d4⟩ := b1 hsig
-          simp only [hsig, Bool.not_true, Bool.and_false, Bool.and_true, Bool.false_or, beq_iff_eq] at c1
-          simp only [Bool.true_and, decide_eq_true_eq]
-          split <;> omega
+        cases hsn : s.seen with
         | false =>
-          obtain ⟨d1, d2, d3⟩ := b2 hsig
-          simp only [hsig, Bool.not_false, Bool.and_true, Bool.and_false, Bool.or_false, beq_iff_eq] at c1
-          simp only [Bool.false_and, Bool.false_eq_true, ↓reduceIte]
-          omega
+          -- first enumerator: the counter is 0 and the wrap-around test is not evaluated
+          have hn0 := h.first hsn
+          have hv0 : s.value = 0 := by omega
+          rw [hv0, hn0]; simp [val64]
+        | true =>
+          obtain ⟨r1, r2⟩ := h.range hsn
+          have c1 : ¬ ((s.value == 0 && !b.signed) || (s.value == 9223372036854775808 && b.signed)) = true := by
+            simpa [hsn] using c0
+          unfold val64
+          cases hsig : b.signed with
+          | true =>
+            obtain ⟨d1, d2, d3, d4⟩ := b1 hsig
+            simp only [hsig, Bool.not_true, Bool.and_false, Bool.and_true, Bool.false_or, beq_iff_eq] at c1
+            simp only [Bool.true_and, decide_eq_true_eq]
+            split <;> omega
+          | false =>
+            obtain ⟨d1, d2, d3⟩ := b2 hsig
+            simp only [hsig, Bool.not_false, Bool.and_true, Bool.and_false, Bool.or_false, beq_iff_eq] at c1
+            simp only [Bool.false_and, Bool.false_eq_true, ↓reduceIte]
+            omega
       rw [hn] at hr
       exact ⟨next, rfl, hr, hval, fun its => by simp only [enumValuesFixed]⟩
     · simp [c2] at hs
@@ -486,7 +510,7 @@ theorem enumLoop_fix {b : IntTy} (hb : ValidTy b) : ∀ (items : List EnumItem) 
       obtain ⟨v, he, hr, hv, hspec⟩ := enumPick_fix hb h (hw it (by simp)) hp
       subst he
       have h' : FJ et (enumRecord s value et) (v + 1) := by
-        refine ⟨?_, rfl, Or.inr ?_⟩
+        refine ⟨?_, rfl, fun hf => by simp [enumRecord] at hf, fun _ => ?_⟩
         · simp only [enumRecord, u64, M64]; omega
         · unfold Represents at hr; omega
       have ih := enumLoop_fix hb its _ _ sf h' (fun x hx => hw x (by simp [hx])) hl
@@ -503,7 +527,7 @@ theorem enumUnderlying_fix {b : IntTy} {items : List EnumItem} {t : IntTy} (hb :
   | ok sf =>
     simp only [hl, Except.ok.injEq] at h
     subst h
-    have := enumLoop_fix hb items { et := b } 0 sf ⟨by simp, rfl, Or.inl rfl⟩ hw hl
+    have := enumLoop_fix hb items { et := b } 0 sf (FJ_init b) hw hl
     simp only [Abi.enumUnderlying, this, ↓reduceIte]
 /-! ### Acceptance: an enum the spec gives a type to is not rejected -/
 
@@ -532,7 +556,7 @@ theorem enumPick_nofix_complete {s : EnumSt} {next : Int} {sgn : Bool} {vs : Lis
         simp only [Bool.false_and, Bool.not_false, Bool.true_and, Bool.false_or, decide_eq_true_eq] at hc
         simp only [Bool.not_false, Bool.and_true, Bool.and_false, Bool.or_false, beq_eq_false_iff_ne, ne_eq]
         omega
-    simp only [enumPick, c1, Bool.false_eq_true, ↓reduceIte]
+    simp only [enumPick, c1, Bool.and_false, Bool.false_eq_true, ↓reduceIte]
     by_cases c2 : typehasint s.et s.value s.et.signed = true
     · exact ⟨(s.value, s.et), by simp only [c2, Bool.not_true, Bool.false_eq_true, ↓reduceIte]⟩
     · have h8 : typehasint ⟨8, s.et.signed⟩ s.value s.et.signed = true := by
@@ -615,17 +639,17 @@ theorem enumUnderlying_nofix_complete {items : List EnumItem} {t : IntTy} (hw : 
         | false => exact ⟨_, by simp only [p8] <;> rfl⟩
       | false => simp [h8] at h
 
-/-- fixed underlying type: the loop does not fail when every value is representable, *unless*
-the type is unsigned and the very first enumerator has no `=` (see `enum_accepts_counterexample`) -/
+/-- fixed underlying type: the loop does not fail when every value is representable (the
+wrap-around test `value == 0 && !issigned` is not evaluated on the first enumerator, commit
+bb180d9) -/
 theorem enumLoop_fix_complete {b : IntTy} (hb : ValidTy b) : ∀ (items : List EnumItem) (s : EnumSt)
     (next : Int), FJ b s next → ItemsWf items →
-    (next = 0 → b.signed = true ∨ items.head? ≠ some .implicit ∨ (lo b + 1 ≤ next ∧ next ≤ hi b + 1)) →
     (enumValuesFixed next items).all (fun v => decide (Represents b v)) = true →
     ∃ sf, enumLoop true s items = .ok sf
-  | [], s, _, _, _, _, _ => ⟨s, rfl⟩
-  | it :: its, s, next, h, hw, h0, hall => by
+  | [], s, _, _, _, _ => ⟨s, rfl⟩
+  | it :: its, s, next, h, hw, hall => by
     obtain ⟨b1, b2⟩ := lo_hi_bounds hb
-    have hval := h.value; have het := h.et; have hrange := h.range
+    have hval := h.value; have het := h.et
     have hpick : ∃ r, enumPick true s it = .ok r := by
       cases it with
       | explicit u ty =>
@@ -641,36 +665,35 @@ theorem enumLoop_fix_complete {b : IntTy} (hb : ValidTy b) : ∀ (items : List E
         have hr := hall.1
         unfold Represents at hr
         have hvl : s.value < 2 ^ 64 := by omega
-        have hrg : b.signed = true ∨ (lo b + 1 ≤ next ∧ next ≤ hi b + 1) := by
-          rcases hrange with h00 | hr2
-          · rcases h0 h00 with a | a | a
-            · exact Or.inl a
-            · simp at a
-            · exact Or.inr a
-          · exact Or.inr hr2
-        have c1 : ((s.value == 0 && !b.signed) || (s.value == 9223372036854775808 && b.signed)) = false := by
-          cases hsig : b.signed with
-          | true =>
-            obtain ⟨d1, d2, d3, d4⟩ := b1 hsig
-            simp only [Bool.not_true, Bool.and_false, Bool.and_true, Bool.false_or, beq_eq_false_iff_ne, ne_eq]
-            rcases hrange with h00 | hr2 <;> omega
-          | false =>
-            obtain ⟨d1, d2, d3⟩ := b2 hsig
-            simp only [Bool.not_false, Bool.and_true, Bool.and_false, Bool.or_false, beq_eq_false_iff_ne, ne_eq]
-            rcases hrg with a | a
-            · rw [hsig] at a; cases a
-            · omega
+        -- first enumerator: counter 0, test not evaluated; later ones: the counter is in range
+        have hrange : (s.seen = false ∧ next = 0) ∨ (s.seen = true ∧ lo b + 1 ≤ next ∧ next ≤ hi b + 1) := by
+          cases hsn : s.seen with
+          | false => exact Or.inl ⟨rfl, h.first hsn⟩
+          | true => exact Or.inr ⟨rfl, h.range hsn⟩
+        have c1 : (s.seen && ((s.value == 0 && !b.signed) || (s.value == 9223372036854775808 && b.signed))) = false := by
+          rcases hrange with ⟨hsn, _⟩ | ⟨hsn, r1, r2⟩
+          · simp only [hsn, Bool.false_and]
+          · simp only [hsn, Bool.true_and]
+            cases hsig : b.signed with
+            | true =>
+              obtain ⟨d1, d2, d3, d4⟩ := b1 hsig
+              simp only [Bool.not_true, Bool.and_false, Bool.and_true, Bool.false_or, beq_eq_false_iff_ne, ne_eq]
+              omega
+            | false =>
+              obtain ⟨d1, d2, d3⟩ := b2 hsig
+              simp only [Bool.not_false, Bool.and_true, Bool.and_false, Bool.or_false, beq_eq_false_iff_ne, ne_eq]
+              omega
         have hn : val64 s.value b.signed = next := by
           unfold val64
           cases hsig : b.signed with
           | true =>
             obtain ⟨d1, d2, d3, d4⟩ := b1 hsig
             simp only [Bool.true_and, decide_eq_true_eq]
-            split <;> omega
+            rcases hrange with ⟨_, h00⟩ | ⟨_, r1, r2⟩ <;> split <;> omega
           | false =>
             obtain ⟨d1, d2, d3⟩ := b2 hsig
             simp only [Bool.false_and, Bool.false_eq_true, ↓reduceIte]
-            omega
+            rcases hrange with ⟨_, h00⟩ | ⟨_, r1, r2⟩ <;> omega
         have c2 : typehasint b s.value b.signed = true := by
           apply (typehasint_iff hb hvl b.signed).2
           rw [hn]; exact hall.1
@@ -679,25 +702,22 @@ theorem enumLoop_fix_complete {b : IntTy} (hb : ValidTy b) : ∀ (items : List E
     obtain ⟨v, he, hr, hv, hspec⟩ := enumPick_fix hb h (hw it (by simp)) hp
     subst he
     have h' : FJ et (enumRecord s value et) (v + 1) := by
-      refine ⟨?_, rfl, Or.inr ?_⟩
+      refine ⟨?_, rfl, fun hf => by simp [enumRecord] at hf, fun _ => ?_⟩
       · simp only [enumRecord, u64, M64]; omega
       · unfold Represents at hr; omega
     rw [hspec its] at hall
     simp only [List.all_cons, Bool.and_eq_true] at hall
-    obtain ⟨sf, hl⟩ := enumLoop_fix_complete hb its _ _ h' (fun x hx => hw x (by simp [hx]))
-      (fun _ => Or.inr (Or.inr (by unfold Represents at hr; omega))) hall.2
+    obtain ⟨sf, hl⟩ := enumLoop_fix_complete hb its _ _ h' (fun x hx => hw x (by simp [hx])) hall.2
     exact ⟨sf, by simp only [enumLoop, enumStep, hp, hl]⟩
 
 theorem enumUnderlying_fix_complete {b : IntTy} {items : List EnumItem} {t : IntTy} (hb : ValidTy b)
-    (hw : ItemsWf items) (hx : b.signed = true ∨ items.head? ≠ some .implicit)
-    (h : Abi.enumUnderlying (some b) items = some t) : Layout.enumUnderlying (some b) items = .ok t := by
+    (hw : ItemsWf items) (h : Abi.enumUnderlying (some b) items = some t) : Layout.enumUnderlying (some b) items = .ok t := by
   simp only [Abi.enumUnderlying] at h
   split at h
   · rename_i hall
     simp only [Option.some.injEq] at h
     subst h
-    obtain ⟨sf, hl⟩ := enumLoop_fix_complete hb items { et := b } 0 ⟨by simp, rfl, Or.inl rfl⟩ hw
-      (fun _ => by rcases hx with a | a; exact Or.inl a; exact Or.inr (Or.inl a)) hall
+    obtain ⟨sf, hl⟩ := enumLoop_fix_complete hb items { et := b } 0 (FJ_init b) hw hall
     simp only [Layout.enumUnderlying, hl]
   · cases h
 
